@@ -26,7 +26,19 @@ def run(tier, repo):
                 if k == "header":
                     hdr = dict((a, b) for a, b in v[2]) if v[0] == "struct" else None
         x = r["code"]["steps"][2][1] if len(r["code"]["steps"]) > 2 and r["code"]["steps"][2][0] == "u" and r["code"]["steps"][2][2] == 64 else None
-        ok = hdr is not None and x is not None and hdr.get("epoch") == ["cast", "u16", ["op", ">>", ["v", x], ["n", 48]]] and hdr.get("sequence_number") in (["op", "&", ["n", (1 << 48) - 1], ["v", x]], ["op", "&", ["v", x], ["n", (1 << 48) - 1]])
+        # decided by value, not by shape: both expressions (over the one 64-bit wire integer x) are evaluated by the checker
+        # on every single-bit value of x and on mixed patterns, and must select the high 16 / the low 48 bits
+        ok = False
+        if hdr is not None and x is not None and hdr.get("epoch") is not None and hdr.get("sequence_number") is not None:
+            from ..grammar_check import ev_sym, free_vars
+            fv = set()
+            free_vars(hdr["epoch"], fv)
+            free_vars(hdr["sequence_number"], fv)
+            tests = [1 << k for k in range(64)] + [0, (1 << 64) - 1, 0x0123456789abcdef, 0xfedcba9876543210, 0xffff000000000000, 0x0000ffffffffffff, 0x8000000000000001, 0x00010000ffff0001]
+            try:
+                ok = fv == {x} and all(ev_sym(hdr["epoch"], {x: v}) == (v >> 48) and ev_sym(hdr["sequence_number"], {x: v}) == (v & ((1 << 48) - 1)) for v in tests)
+            except Exception:
+                ok = False
         rp.check(ok, "EPOCH-SEQ", "split", s, "epoch / sequence number are not the high 16 / low 48 bits of the 64-bit field", found={k: sym_str(v) for k, v in (hdr or {}).items() if k in ("epoch", "sequence_number")})
     r = res.get("dtls::parse_dtls_message_handshake")
     if r and "code" in r:
